@@ -51,8 +51,8 @@ CHECKS = {
  "C07": dict(engine="relay", tech="TLA+ spec (Relay: PluginClosed at any moment, Veto) model-checked by TLC; TLC-enumerated fault placements (Gen_Fault) replayed with a byte-cutting raw plugin peer; recorded runs validated by TLC (Trace_Relay)",
    text="MC_Relay explores a plugin failing at every moment relative to every other step and handler errors (Delivered, VisitedOK, liveness AllDone = no deadlock). Gen_Fault enumerates plugin position x request kind x fault (close before/during/after, cut after k bytes of request or response, hang past the timeout, context-blocked hang, garbage on the wire, handler error); each is realised on the real Adaptation with a raw mux+ttRPC plugin peer whose connection is cut at exact byte offsets; the validated trace must show: request returns (watchdog 20xT), latency <= n x T + 2 s, survivors' contributions intact, dropped plugin never reached again, handler error fails the request with that error and no later plugin invoked.",
    ref="5/C07", note="Trusted base as C06; a plugin dropped exactly while answering may or may not have contributed / vetoed (both accepted); a cut is a close of the plugin's end of the socket."),
- "C08": dict(engine="relay", tech="TLA+ spec (Relay sync lock) model-checked by TLC incl. a negative control; recorded executions with racing registrations and creations validated by TLC",
-   text="ExactlyOnce and HeldBlocksSync are model-checked over all interleavings (and a mutated model without sync blocks must violate ExactlyOnce - vacuity guard). In recorded runs of the real code every sync.exclusive must find no sync block held, every block.acquired no registration in progress, every store.add / activation must satisfy snapshot XOR creation-relayed for each live active subscribed plugin, and registrations must complete once blocks are released.",
+ "C08": dict(engine="relay", tech="TLA+ spec (Relay sync lock) model-checked by TLC incl. a negative control; Apalache inductive invariant (SyncOnceInd: exactly-once for any number of held sync blocks); recorded executions with racing registrations and creations validated by TLC",
+   text="ExactlyOnce and HeldBlocksSync are model-checked over all interleavings (and a mutated model without sync blocks must violate ExactlyOnce - vacuity guard); SyncOnceInd proves them inductive with Apalache for one plugin, one container and an unbounded number of other held blocks. In recorded runs of the real code every sync.exclusive must find no sync block held, every block.acquired no registration in progress, every store.add / activation must satisfy snapshot XOR creation-relayed for each live active subscribed plugin, and registrations must complete once blocks are released.",
    ref="5/C08", note="Assumes the runtime performs creation and bookkeeping inside one sync block (the harness' runtime does). Same trusted base as C06."),
  "C17": dict(engine="relay", tech="TLA+ spec (Relay registration; WellFormed decided from raw strings in Trace_Relay) model-checked by TLC; TLC-enumerated registration classes (Gen_Reg) replayed with raw plugin peers; recorded runs validated by TLC",
    text="MC_Relay with malformed registrations in the accept queue (OnlyWellFormed, liveness RegsEnd: bad plugins never stop later ones). Gen_Reg enumerates name x index-string x mask x stall classes (empty/one/three digits, letters, sign, space, non-ASCII digits; foreign, high and sign bits; never registers / never answers Configure) alone and as up to 2 (3 thorough) bad plugins ahead of a good one; each is realised with raw mux+ttRPC peers; the trace specification decides well-formedness itself from the logged raw strings and rejects any Synchronize/event reaching a malformed peer, a well-formed peer not activated within the budget, a socket served when disabled, or a created socket directory with group/other permission bits (umask 000/022/077/007).",
